@@ -51,10 +51,10 @@ def small_scope(focus, quick):
         import itertools
         for n in ((2, 3) if quick else (2, 3, 4)):
             combos = list(itertools.product(bodies, repeat=n))
-            if len(combos) > (1500 if quick else 30000):
+            if len(combos) > (1500 if quick else 5000):
                 import random
                 rng = random.Random(7)
-                combos = rng.sample(combos, 1500 if quick else 30000)
+                combos = rng.sample(combos, 1500 if quick else 5000)
             for c in combos:
                 for rec in ((False,) if quick else (False, True)):
                     progs.append(new_prog(rec=[rec], ncv=1, actors=[list(b) for b in c]))
@@ -82,8 +82,7 @@ def run(ctx, focus, n_random_quick, n_random_thorough, max_actors=4, max_ops=6, 
         if gen is not None:
             progs.append(gen(ctx.rng, quick))
         else:
-            progs.append(K.gen_sync_prog(ctx.rng, focus, max_actors=max_actors if quick else max_actors + 1,
-                                         max_ops=max_ops if quick else max_ops + 2))
+            progs.append(K.gen_sync_prog(ctx.rng, focus, max_actors=max_actors, max_ops=max_ops if quick else max_ops + 1))
     # de-duplicate
     seen = set()
     uniq = []
@@ -164,6 +163,25 @@ def run(ctx, focus, n_random_quick, n_random_thorough, max_actors=4, max_ops=6, 
                           signature="%s:outcome:%s" % (ctx.prop, vlib.canon_hash(progs[i])),
                           detail=json.dumps(K.prog_brief(progs[i])))
     ctx.cov["outcomes_compared"] = n_out
+    # ---------------- T under the model checker: "every interleaving explored by the model checker" (C04, C05, C07, C08)
+    if focus in ("mutex", "sem", "bar", "comm"):
+        import mcbind_common as M
+        MC_OPS = {"lock", "trylock", "unlock", "acq", "rel", "bar", "put", "get", "puta", "geta", "putd", "wait", "test"}
+        cand = [p for p in progs if len(p["actors"]) <= 3 and sum(len(a) for a in p["actors"]) <= 9 and K.shared_objects(p)
+                and all(o["op"] in MC_OPS for a in p["actors"] for o in a) and not any(p.get("perm", []))]
+        ctx.rng.shuffle(cand)
+        mcp = [dict(json.loads(json.dumps(p)), gran="mc", timed=False) for p in cand[: (5 if quick else 25)]]
+        if mcp:
+            res = M.explore_all(ctx, mcp, ["dpor"], ["--cfg=model-check/max-errors:-1"], timeout=120)
+            mrej, _ = M.validate_explorations(ctx, mcp, res)
+            ctx.cov["mc_programs"] = len(mcp)
+            ctx.cov["mc_executions_validated"] = sum(len(r["traces"]) for r in res.values())
+            for x in mrej:
+                j, red = x["key"]
+                ctx.violation("execution explored by simgrid-mc (%s) rejected by SgKernel at record %s: %s" % (red, json.dumps(x["record"]), x["reason"]),
+                              files={"program.json": json.dumps(mcp[j]), "program.txt": K.prog_to_txt(mcp[j]),
+                                     "trace.ndjson": "\n".join(json.dumps(r) for r in x["trace"]) + "\n"},
+                              signature="%s:mc:%s" % (ctx.prop, vlib.canon_hash(mcp[j])), detail=json.dumps(K.prog_brief(mcp[j])))
     ctx.assumptions += ["TLC explores the specification, not the code: the binding is the trace validation of the runs made",
                         "ties between a grant and a timeout at the same date are left open by the specification",
                         "hook H1 (handle/answer lines) and the driver's issue/ret lines are trusted to be emitted in program order"]
